@@ -152,6 +152,168 @@ fn function_part(rep: &mut Report, thorough: bool) -> (u64, u64, Vec<Value>) {
 }
 
 // ---------------------------------------------------------------------------
+// Overlapping checks: the limiter reads a bucket under a read lock and charges it under a write
+// lock taken afterwards.  Between the two a task can be descheduled (another worker thread runs,
+// or the task's cooperative budget runs out at the second lock) while further queries from the
+// same source are checked against the not-yet-charged bucket.  Here K tasks call the real
+// `IpRateLimiter::check` on one current-thread runtime; a task is made to yield exactly between
+// its check and its charge by spending its cooperative budget down to one unit first (the read
+// lock takes the last unit, the write lock then has to yield -- tokio's own scheduling point, no
+// hook).  Every task of a round is therefore checked before any is charged.
+// What must hold: the charges of overlapping grants are all kept (the bucket goes into debt), so
+// the volume over any window stays within burst + rate x time + the overdraft of one round,
+// (K-1) x cost per bucket.
+// ---------------------------------------------------------------------------
+
+#[derive(Clone, Copy, Debug)]
+struct Round {
+    tasks: usize,
+    cost: u32,
+    /// all tasks yield between check and charge (false: every second one does)
+    all: bool,
+    /// seconds since the previous round
+    gap: u64,
+}
+
+fn round_alphabet(thorough: bool) -> Vec<Round> {
+    let mut v = vec![];
+    let ks: &[usize] = if thorough { &[1, 2, 3, 8, 16] } else { &[1, 2, 16] };
+    for &tasks in ks {
+        for cost in [200u32, 1000] {
+            for all in [true, false] {
+                if tasks == 1 && !all {
+                    continue;
+                }
+                for gap in if thorough { vec![0u64, 100, 500, 1000, 3000] } else { vec![0u64, 500, 1000] } {
+                    v.push(Round { tasks, cost, all, gap });
+                }
+            }
+        }
+    }
+    v
+}
+
+/// One history of rounds on a fresh limiter.  Returns (violations, largest number of grants in one round).
+fn run_rounds(h: &[Round], b: u32, r: u32, src: IpAddr) -> (Vec<(&'static str, String)>, usize) {
+    let rt = tokio::runtime::Builder::new_current_thread().build().expect("rt");
+    let lim = std::sync::Arc::new(RateLimiter::new());
+    let mut now = T0;
+    clock::set_secs(now);
+    let mut grants: Vec<(u64, u32)> = vec![];
+    let mut max_round = 0usize;
+    let kmax = h.iter().map(|x| x.tasks).max().unwrap_or(1) as u64;
+    let cmax = h.iter().map(|x| x.cost).max().unwrap_or(0) as u64;
+    for rd in h {
+        now += rd.gap;
+        clock::set_secs(now);
+        let (tasks, cost, all) = (rd.tasks, rd.cost, rd.all);
+        let lim2 = lim.clone();
+        let g: usize = rt.block_on(async move {
+            let hs: Vec<_> = (0..tasks)
+                .map(|i| {
+                    let lim = lim2.clone();
+                    tokio::spawn(async move {
+                        if all || i % 2 == 0 {
+                            // a fresh poll has 128 units: leave one
+                            for _ in 0..127 {
+                                tokio::task::coop::consume_budget().await;
+                            }
+                        }
+                        lim.check(src, cost as usize).await
+                    })
+                })
+                .collect();
+            let mut g = 0;
+            for h in hs {
+                if h.await.unwrap_or(false) {
+                    g += 1;
+                }
+            }
+            g
+        });
+        max_round = max_round.max(g);
+        for _ in 0..g {
+            grants.push((now, cost));
+        }
+    }
+    let mut out = vec![];
+    for i in 0..grants.len() {
+        let mut sum = 0u64;
+        for j in i..grants.len() {
+            sum += grants[j].1 as u64;
+            let dt = grants[j].0 - grants[i].0;
+            let bound = 2 * b as u64 + 2 * r as u64 * (dt + 1) + 2 * (kmax - 1) * cmax;
+            if sum > bound {
+                out.push(("volume-bound", format!("{sum} tokens granted within {dt}s to one source whose queries are checked up to {kmax} at a time; bound is 2x{b} + 2x{r}x({dt}+1) + overdraft 2x({kmax}-1)x{cmax} = {bound}")));
+                return (out, max_round);
+            }
+        }
+    }
+    (out, max_round)
+}
+
+fn concurrent_part(rep: &mut Report, thorough: bool) -> (u64, Value) {
+    let (b, r) = RateLimiter::params();
+    let alpha = round_alphabet(thorough);
+    let depth = if thorough { 4 } else { 3 };
+    let n = alpha.len();
+    let src: IpAddr = "192.0.2.77".parse().unwrap();
+    // thorough: the last position only over the rounds that can add volume at once (gap > 0 adds
+    // nothing a shorter history does not show) -- no: keep the full product, it is affordable
+    let firsts: Vec<usize> = (0..n).collect();
+    let results: Vec<(u64, usize, Vec<Violation>)> = firsts
+        .par_iter()
+        .map(|first| {
+            let mut count = 0u64;
+            let mut maxg = 0usize;
+            let mut viols: Vec<Violation> = vec![];
+            let mut idx = vec![0usize; depth - 1];
+            loop {
+                let mut h = vec![alpha[*first]];
+                h.extend(idx.iter().map(|i| alpha[*i]));
+                // every prefix is a history of its own (the window oracle covers them all at once)
+                let (vs, g) = run_rounds(&h, b, r, src);
+                count += 1;
+                maxg = maxg.max(g);
+                for (oracle, what) in vs {
+                    if viols.is_empty() {
+                        let hist: Vec<Value> = h.iter().map(|x| json!([x.tasks, x.cost, x.all, x.gap])).collect();
+                        viols.push(Violation::new(oracle, format!("rounds (tasks, cost, all-yield, gap s) {}: {what}", serde_json::to_string(&hist).unwrap_or_default()), json!({"engine":"c16","part":"concurrent","rounds":hist})).sig("part", "concurrent"));
+                    }
+                }
+                let mut pos = idx.len();
+                loop {
+                    if pos == 0 {
+                        return (count, maxg, viols);
+                    }
+                    pos -= 1;
+                    idx[pos] += 1;
+                    if idx[pos] < n {
+                        break;
+                    }
+                    idx[pos] = 0;
+                }
+            }
+        })
+        .collect();
+    let mut total = 0;
+    let mut maxg = 0;
+    let mut seen = false;
+    for (c, g, vs) in results {
+        total += c;
+        maxg = maxg.max(g);
+        for v in vs {
+            if !seen {
+                seen = true;
+                rep.violation(v);
+            }
+        }
+    }
+    clock::unset();
+    (total, json!({"histories": total, "rounds_per_history": depth, "round_alphabet": n, "largest_number_of_grants_in_one_round": maxg, "rule": "every history of this many rounds over {1, 2, 16 (thorough also 3, 8) tasks calling the real IpRateLimiter::check for one source at once} x {cost 200, 1000} x {every task / every second task yields between its check and its charge} x {gap 0, 500, 1000 s (thorough also 100, 3000)}; the yield is tokio's own (cooperative budget exhausted at the write lock); oracle: volume over every window <= 2B + 2R(dt+1) + 2(K-1)cost. largest_number_of_grants_in_one_round > 2 shows that checks really overlapped"}))
+}
+
+// ---------------------------------------------------------------------------
 // Live service
 // ---------------------------------------------------------------------------
 
@@ -664,6 +826,15 @@ pub fn run(tier: &str, replay: Option<Value>) -> ! {
         let case = if case.get("case").is_some() { case["case"].clone() } else { case };
         if case["engine"].as_str() == Some("enet") {
             netrun::replay_one(&mut rep, &case, run_case);
+        } else if case["part"].as_str() == Some("concurrent") {
+            let (b, r) = RateLimiter::params();
+            let h: Vec<Round> = case["rounds"].as_array().cloned().unwrap_or_default().iter().map(|x| Round { tasks: x[0].as_u64().unwrap_or(1) as usize, cost: x[1].as_u64().unwrap_or(200) as u32, all: x[2].as_bool().unwrap_or(true), gap: x[3].as_u64().unwrap_or(0) }).collect();
+            let (vs, g) = run_rounds(&h, b, r, "192.0.2.77".parse().unwrap());
+            eprintln!("  rounds {:?} -> largest number of grants in one round {g}", h);
+            for (o, w) in vs {
+                rep.violation(Violation::new(o, w, case.clone()).sig("part", "concurrent"));
+            }
+            clock::unset();
         } else {
             let (b, r) = RateLimiter::params();
             let alphabet = ops(b, r);
@@ -677,6 +848,9 @@ pub fn run(tier: &str, replay: Option<Value>) -> ! {
         rep.finish();
     }
     let (n, classes, samples) = function_part(&mut rep, tier == "thorough");
+    let (n_conc, conc) = concurrent_part(&mut rep, tier == "thorough");
+    rep.cov("overlapping_checks", conc);
+    let n = n + n_conc;
     let agg = netrun::run_sharded(&mut rep, "C16", tier, cases, 16);
     rep.cov("states", classes.max(1));
     rep.cov("transitions", n);
@@ -688,7 +862,7 @@ pub fn run(tier: &str, replay: Option<Value>) -> ! {
     rep.cov("live_executions", agg.executions);
     rep.cov("live_classes", json!(agg.classes));
     rep.cov("samples", samples);
-    rep.assume("per source two of 256 buckets: burst 2B, rate 2R; concurrent check/deplete between two worker threads is not explored (the harness is single-threaded)");
+    rep.assume("per source two of 256 buckets: burst 2B, rate 2R; queries of one source whose checks overlap (checked before any of them is charged) may overdraw a bucket by (K-1) x cost, which is then owed: the window bound of the overlapping part carries that term; true parallelism between worker threads is reduced to this await-granularity overlap");
     rep.assume("whether a cookie the server DID issue is still honoured after a silent gap spanning several rotation periods is don't-care (rotation is lazy); a cookie it never issued is never honoured, whatever the gap");
     rep.finish()
 }
